@@ -12,8 +12,6 @@ theorem abs_setRefs (s : St) (l : List RefSt) :
 
 theorem key_setRefs (s : St) (l : List RefSt) (k : Nat) : ({ s with refs := l } : St).key k = s.key k := rfl
 
-theorem noDueRm_setRefs (s : St) (l : List RefSt) (h : NoDueRm s) : NoDueRm { s with refs := l } := h
-
 theorem failedOf_setRefs (s : St) (l : List RefSt) : failedOf { s with refs := l } = failedOf s := rfl
 
 theorem dismiss_live (a : ASt) (l : List (Option Nat)) (f : Bool) (k : Nat) :
@@ -21,10 +19,10 @@ theorem dismiss_live (a : ASt) (l : List (Option Nat)) (f : Bool) (k : Nat) :
 
 theorem inSet_live (a : ASt) (l : List (Option Nat)) (k : Nat) : ({ a with live := l } : ASt).inSet k = a.inSet k := rfl
 
-theorem addKeyRef_refines (s : St) (k : Nat) (hd : NoDueRm s) :
+theorem addKeyRef_refines (s : St) (k : Nat) :
     abs (addKeyRef s k).1 = specStep (abs s) (failedOf s) (.addKeyRef k) ∧
     (addKeyRef s k).2.2 = .ref (abs s).live.length ((abs (addKeyRef s k).1).st k).data ((abs s).inSet k) := by
-  have h := setKey_refines s k true hd
+  have h := setKey_refines s k true
   unfold addKeyRef
   simp only []
   rw [abs_setRefs]
@@ -46,7 +44,7 @@ theorem refCount_abs (s : St) (k : Nat) : refCount s k = liveCount (abs s) k := 
   simp only [Function.comp, absRef]
   cases x.listed <;> simp
 
-theorem release_refines (s : St) (r : Nat) (hd : NoDueRm s) (hr : RefInv s) :
+theorem release_refines (s : St) (r : Nat) (hr : RefInv s) :
     abs (release s r) = specRelease (abs s) (failedOf s) r := by
   unfold release specRelease
   have hget : (abs s).live[r]? = (s.refs[r]?).map absRef := by simp [abs]
@@ -68,17 +66,17 @@ theorem release_refines (s : St) (r : Nat) (hd : NoDueRm s) (hr : RefInv s) :
       rw [refCount_abs, hs1]
       split
       · have := (removeKey_refines { s with refs := s.refs.set r { x with rel := true, listed := false } } x.key
-          (noDueRm_setRefs s _ hd)).1
+         ).1
         rw [this, hs1, failedOf_setRefs]
       · exact hs1
 
-theorem rcRemoveKey_refines (s : St) (k : Nat) (hd : NoDueRm s) :
+theorem rcRemoveKey_refines (s : St) (k : Nat) :
     abs (rcRemoveKey s k).1 = specStep (abs s) (failedOf s) (.rcRemoveKey k) ∧
     (rcRemoveKey s k).2 = (abs s).inSet k := by
   unfold rcRemoveKey
   simp only []
   have h := removeKey_refines { s with refs := s.refs.map fun x =>
-    if x.key == k && x.listed then { x with rel := true, listed := false } else x } k (noDueRm_setRefs s _ hd)
+    if x.key == k && x.listed then { x with rel := true, listed := false } else x } k
   refine ⟨?_, ?_⟩
   · rw [h.1, abs_setRefs, failedOf_setRefs]
     simp only [specStep]
@@ -92,12 +90,12 @@ theorem rcRemoveKey_refines (s : St) (k : Nat) (hd : NoDueRm s) :
 
 /-! ## results of the read-only calls -/
 
-theorem data_abs (s : St) (hd : NoDueRm s) (k : Nat) (r : Rec) (hr : s.key k = some r) :
+theorem data_abs (s : St) (k : Nat) (r : Rec) (hr : s.key k = some r) :
     ((abs s).st k).data = r.data := by
   simp only [st_abs, hr, absKey]
   cases hdr : r.deferRemove with
   | none => rfl
-  | some e => simp [hd k r e hr hdr, KSt.data]
+  | some e => simp [KSt.data]
 
 theorem core_isSome (r : Option Rec) : (core r).isSome = r.isSome := by cases r <;> rfl
 
@@ -121,22 +119,22 @@ theorem restartAll_count (L : List Nat) (s : St) (n : Nat) (hL : ∀ k, k ∈ L 
 
 /-- **C06, one call**: the critical section of every API call acts on the abstract key set exactly
 as the specification says, and returns the results the specification allows. -/
-theorem execOp_refines (s : St) (op : Op) (hd : NoDueRm s) (hr : RefInv s) :
+theorem execOp_refines (s : St) (op : Op) (hr : RefInv s) :
     abs (execOp s op).1 = specStep (abs s) (failedOf s) op ∧
     SpecOut (abs s) (abs (execOp s op).1) op (execOp s op).2.2 := by
-  have hin := inSet_abs s hd
+  have hin := inSet_abs s
   cases op with
   | setKey k st =>
-    have h := setKey_refines s k st hd
+    have h := setKey_refines s k st
     refine ⟨h.1, ?_⟩
     simp only [SpecOut, execOp]
     have := h.2; simp only [Prod.ext_iff] at this
     rw [this.1, this.2]
   | removeKey k =>
-    have h := removeKey_refines s k hd
+    have h := removeKey_refines s k
     exact ⟨h.1, by simp only [SpecOut, execOp, h.2]⟩
   | syncKeys ks restart =>
-    refine ⟨syncKeys_refines s ks restart hd, ?_⟩
+    refine ⟨syncKeys_refines s ks restart, ?_⟩
     simp only [SpecOut, execOp, syncKeys]
     refine ⟨_, _, rfl, ?_, ?_⟩
     · intro k; simp [List.mem_filter, mem_dedup, present, hin]
@@ -146,7 +144,7 @@ theorem execOp_refines (s : St) (op : Op) (hd : NoDueRm s) (hr : RefInv s) :
     simp only [SpecOut, hin]
     cases hk : s.key k with
     | none => simp [execOp, hk, st_abs, absKey, KSt.data]
-    | some r => simp [execOp, hk, data_abs s hd k r hk]
+    | some r => simp [execOp, hk, data_abs s k r hk]
   | getKeys =>
     exact ⟨rfl, keyList s, rfl, fun k => by rw [mem_keyList, hin]⟩
   | getKeysWithData =>
@@ -160,21 +158,21 @@ theorem execOp_refines (s : St) (op : Op) (hd : NoDueRm s) (hr : RefInv s) :
       | some r =>
         simp [hr'] at hm
         obtain ⟨rfl, rfl⟩ := hm
-        exact ⟨by simp [hr'], (data_abs s hd k' r hr').symm⟩
+        exact ⟨by simp [hr'], (data_abs s k' r hr').symm⟩
     · rintro ⟨h1, h2⟩
       cases hr' : s.key k with
       | none => simp [hr'] at h1
       | some r =>
         refine ⟨k, by simp [hr'], ?_⟩
-        simp [hr', h2, data_abs s hd k r hr']
+        simp [hr', h2, data_abs s k r hr']
   | resetRoutine k =>
-    have h := resetKey_refines s k hd
+    have h := resetKey_refines s k
     exact ⟨h.1, by simp only [SpecOut, execOp, h.2]⟩
   | restartRoutine k =>
     refine ⟨abs_touch (touch_restartKey s k), ?_⟩
     simp only [SpecOut, execOp, restartKey_out, hin]; rfl
   | resetAll =>
-    refine ⟨resetAll_refines s hd [], ?_⟩
+    refine ⟨resetAll_refines s [], ?_⟩
     exact ⟨keyList s, nodup_keyList s, fun k => by rw [mem_keyList, hin], rfl⟩
   | restartAll =>
     refine ⟨restartAll_abs s _ 0, ?_⟩
@@ -185,10 +183,10 @@ theorem execOp_refines (s : St) (op : Op) (hd : NoDueRm s) (hr : RefInv s) :
     rfl
   | setContext c restart =>
     exact ⟨setContext_refines s c restart, rfl⟩
-  | addKeyRef k => exact addKeyRef_refines s k hd
-  | release r => exact ⟨release_refines s r hd hr, rfl⟩
+  | addKeyRef k => exact addKeyRef_refines s k
+  | release r => exact ⟨release_refines s r hr, rfl⟩
   | rcRemoveKey k =>
-    have h := rcRemoveKey_refines s k hd
+    have h := rcRemoveKey_refines s k
     exact ⟨h.1, by simp only [SpecOut, execOp, h.2]⟩
 
 end UtilModel.Keyed
